@@ -33,6 +33,8 @@ func main() {
 		os.Exit(cmdReplay(os.Args[2:]))
 	case "anchors":
 		os.Exit(cmdAnchors(os.Args[2:]))
+	case "mutrename":
+		os.Exit(cmdMutRename(os.Args[2:]))
 	case "selftest":
 		os.Exit(cmdSelftest(os.Args[2:]))
 	default:
@@ -224,6 +226,14 @@ func cmdCheck(args []string) int {
 	sort.Strings(keys)
 	var results []*FuncResult
 	var toolErrs []string
+	// contracts (of any property) whose function is gone: the code was restructured and the contracts have not followed
+	var orphans, orphansServing []string
+	for _, fc := range prog.contracts.Funcs {
+		if !fc.Extern && prog.findFunc(fc.PkgPath, fc.Key) == nil {
+			orphans = append(orphans, fc.Key)
+		}
+	}
+	sort.Strings(orphans)
 	cfg0 := SolverCfg{TimeoutS: 10, WorkDir: filepath.Join(os.TempDir(), fmt.Sprintf("gvc-foreign-%d", os.Getpid())), Seed: seed, Parallel: 12}
 	defer os.RemoveAll(cfg0.WorkDir)
 	var unmasked []string
@@ -231,7 +241,7 @@ func cmdCheck(args []string) int {
 		fc := prog.contracts.Funcs[k]
 		fn := prog.findFunc(fc.PkgPath, fc.Key)
 		if fn == nil {
-			toolErrs = append(toolErrs, fmt.Sprintf("%s:%d: contract for unknown function %s in %s", fc.File, fc.Line, fc.Key, fc.PkgPath))
+			orphansServing = append(orphansServing, fmt.Sprintf("%s:%d: contract for unknown function %s in %s", fc.File, fc.Line, fc.Key, fc.PkgPath))
 			continue
 		}
 		if o.only != "" && !strings.Contains(fc.Key, o.only) {
@@ -398,6 +408,7 @@ func cmdCheck(args []string) int {
 			fmt.Println("  corpus-unexpected:", u)
 		}
 	}
+	rep.orphans, rep.orphansServing = orphans, orphansServing
 	rc := rep.emit(o, toolErrs)
 	if len(obs) == 0 {
 		fmt.Printf("TOOL-ERROR: no obligations generated for %s\n", o.id)
